@@ -40,6 +40,7 @@ type c09Case struct {
 	Gated  string     `json:"gated,omitempty"` // detached-leaf | double-cleanup | cleanup-vs-insert | cleanup-vs-retain | resub-vs-publish | dup-unsub-behind-writer
 	// kind "replace": K retained publishes (QoS RQoS, tags 1..K, never empty) on one topic by one goroutine while another
 	// reads Retained(topic) all the time: the topic has a retained message at every moment of every linearization
+	// kind "params": K publishes routed while the session re-subscribes with alternating parameters
 	// kind "sweep": K iterations of "an expired retained message is swept by readers while a fresh one is stored"
 	K    int `json:"k,omitempty"`
 	RQoS int `json:"rqos,omitempty"`
@@ -62,6 +63,7 @@ type c09Obs struct {
 	Rounds []c09RoundObs `json:"rounds"`
 	Rep    *c09Replace   `json:"rep,omitempty"`
 	Lost   *int          `json:"lost,omitempty"`
+	Mix    *[2]int       `json:"mix,omitempty"` // deliveries, of which with parameters that do not belong together
 	Err    string        `json:"err,omitempty"`
 }
 
@@ -139,6 +141,9 @@ func (p *c09Prop) Gen(r *Rng, i int, tier string) interface{} {
 	if i%8 == 3 {
 		if i%16 == 11 {
 			return &c09Case{Kind: "sweep", K: 2500 + r.Intn(1000)}
+		}
+		if i%32 == 3 {
+			return &c09Case{Kind: "params", K: 20000 + r.Intn(20000)}
 		}
 		return &c09Case{Kind: "replace", K: 200 + r.Intn(400), RQoS: r.Intn(2)}
 	}
@@ -327,6 +332,9 @@ func (p *c09Prop) Run(ci interface{}) interface{} {
 	}
 	if c.Kind == "sweep" {
 		return p.runSweep(c)
+	}
+	if c.Kind == "params" {
+		return p.runParams(c)
 	}
 	obs := &c09Obs{}
 	e, err := newC09Env(nil)
@@ -765,6 +773,66 @@ func (p *c09Prop) runReplace(c *c09Case) interface{} {
 	return obs
 }
 
+type mixStub struct{ n, mixed int64 }
+
+func (s *mixStub) Hash() uintptr { return 777 }
+func (s *mixStub) Publish(m *mqttp.Publish, q mqttp.QosType, o mqttp.SubscriptionOptions, ids []uint32) error {
+	if m.Topic() != "m/t" {
+		return nil
+	}
+	id := uint32(0)
+	if len(ids) > 0 {
+		id = ids[0]
+	}
+	if !((q == 0 && id == 1 && o.QoS() == 0) || (q == 1 && id == 2 && o.QoS() == 1)) {
+		atomic.AddInt64(&s.mixed, 1)
+	}
+	atomic.AddInt64(&s.n, 1)
+	return nil
+}
+
+func (p *c09Prop) runParams(c *c09Case) interface{} {
+	obs := &c09Obs{}
+	e, err := newC09Env(nil)
+	if err != nil {
+		obs.Err = err.Error()
+		return obs
+	}
+	defer e.prov.Shutdown()
+	st := &mixStub{}
+	sub := func(q byte, id uint32) {
+		e.prov.Subscribe(topicsTypes.SubscribeReq{Filter: "m/t", S: st, Params: vlsubscriber.SubscriptionParams{ID: id, Ops: mqttp.SubscriptionOptions(q | 0x20)}})
+	}
+	sub(0, 1)
+	var stop int32
+	done := make(chan struct{})
+	go func() {
+		defer close(done)
+		for i := 0; atomic.LoadInt32(&stop) == 0; i++ {
+			if i%2 == 0 {
+				sub(1, 2)
+			} else {
+				sub(0, 1)
+			}
+		}
+	}()
+	deadline := time.Now().Add(20 * time.Second)
+	for k := 0; k < c.K && time.Now().Before(deadline); k++ {
+		m := mqttp.NewPublish(mqttp.ProtocolV311)
+		_ = m.Set("m/t", []byte{1}, 1, false, false)
+		_ = e.prov.Publish(m)
+		for atomic.LoadInt64(&st.n) <= int64(k) && time.Now().Before(deadline) {
+		}
+	}
+	atomic.StoreInt32(&stop, 1)
+	<-done
+	obs.Mix = &[2]int{int(atomic.LoadInt64(&st.n)), int(atomic.LoadInt64(&st.mixed))}
+	if obs.Mix[0] < c.K {
+		obs.Err = fmt.Sprintf("only %d of %d publishes were delivered", obs.Mix[0], c.K)
+	}
+	return obs
+}
+
 func (p *c09Prop) runSweep(c *c09Case) interface{} {
 	obs := &c09Obs{}
 	e, err := newC09Env(nil)
@@ -859,6 +927,12 @@ func (p *c09Prop) Coq(ci interface{}, oi interface{}) string {
 	if c.Kind == "gated" {
 		rounds = p.gatedRounds(c.Gated)
 	}
+	if c.Kind == "params" {
+		if o.Mix == nil {
+			return "(mkCase9 [] false)"
+		}
+		return fmt.Sprintf("(mkCase9 [HParams %d %d] %s)", o.Mix[0], o.Mix[1], cBool(o.Err == ""))
+	}
 	if c.Kind == "sweep" {
 		if o.Lost == nil {
 			return "(mkCase9 [] false)"
@@ -913,6 +987,9 @@ func (p *c09Prop) Class(ci interface{}, oi interface{}) (string, bool) {
 	}
 	if c.Kind == "sweep" {
 		return "expiry-sweep-vs-fresh-retain", true
+	}
+	if c.Kind == "params" {
+		return "publish-vs-resubscribe-params", true
 	}
 	n := 0
 	for _, rd := range c.Rounds {
